@@ -263,7 +263,7 @@ def frame_from_axes(long_axis, thin_axis):
     y = np.asarray(thin_axis, float)
     y = y - (y @ x) * x
     y = y / np.linalg.norm(y)
-    z = np.cross(x, y)
+    z = np.array([x[1] * y[2] - x[2] * y[1], x[2] * y[0] - x[0] * y[2], x[0] * y[1] - x[1] * y[0]])
     return np.column_stack([x, y, z])
 
 
